@@ -195,6 +195,7 @@ func c11Eval(c *fw.Ctx, data any) {
 		wantIn[sentinelDump(e)] = k
 	}
 	conn := sched.NewConn(inbound)
+	conn.EmptyEvery = []int{0, 4}[cs.Inbound%2]
 	for k := 5; k < len(inbound); k += 13 {
 		conn.Cuts = append(conn.Cuts, k)
 	}
